@@ -293,6 +293,9 @@ def border(labeled, i, j, Bc=None, out=None, always_return=True, output=None):
     '''
     Bc = get_structuring_elem(labeled, Bc)
     output = _get_output(labeled, out, 'labeled.border', bool, output=output)
+    if np.may_share_memory(labeled, output):
+        # the kernel reads its input while it writes the output
+        labeled = labeled.copy()
     output.fill(False)
     return _labeled.border(labeled, Bc, output, i, j, bool(always_return))
 
@@ -322,6 +325,9 @@ def borders(labeled, Bc=None, out=None, output=None, mode='constant'):
     '''
     Bc = get_structuring_elem(labeled, Bc)
     output = _get_output(labeled, out, 'labeled.borders', bool, output=output)
+    if np.may_share_memory(labeled, output):
+        # the kernel reads its input while it writes the output
+        labeled = labeled.copy()
     output.fill(False)
     return _labeled.borders(labeled, Bc, output, _checked_mode2int(mode, 0.0, 'borders'))
 
